@@ -173,6 +173,7 @@ fn run_cfg<D: Dom>(cx: &RunCtx, cfg: TreeCfg<D>) {
 pub fn c05(cx: &RunCtx) {
     cx.assume("reference and subject call the same std / libm primitive in the same process, so results are compared bit for bit (NaNs identified)");
     let kinds = [Kind::Value, Kind::WellFormedErr, Kind::MustErrOk];
+    crate::fam::sign_runs::<F64>(cx, &kinds);
     use BinOp::*;
     let mut bins = ops(&[Add, Sub, Mul, Div, Rem, Pow]);
     bins.push(BinKind::Call(Func::Pow));
@@ -242,6 +243,7 @@ pub fn c05(cx: &RunCtx) {
 pub fn c06(cx: &RunCtx) {
     cx.assume("the oracle is exact arithmetic in i128 followed by the rules of C06; x<<y that does not fit, MIN/-1 and exponents outside 0..4294967295 carry no demand");
     let kinds = [Kind::Value, Kind::WellFormedErr, Kind::MustErrOk];
+    crate::fam::sign_runs::<I64>(cx, &kinds);
     use BinOp::*;
     let mut bins = ops(&[Add, Sub, Mul, Div, Rem, Pow, And, Or, Shl, Shr]);
     bins.push(BinKind::Call(Func::Pow));
@@ -371,6 +373,7 @@ fn dec_family_at(n: &Node, at: Decimal) -> Option<String> {
 pub fn c07(cx: &RunCtx) {
     cx.assume("the oracle is exact rational arithmetic on arbitrary-precision integers (refmodel/big.rs); results between Decimal::MAX and MAX+1 and non-representable sums/products carry no demand");
     let kinds = [Kind::Value, Kind::WellFormedErr, Kind::MustErrOk];
+    crate::fam::sign_runs::<Dec>(cx, &kinds);
     use BinOp::*;
     let mut bins = ops(&[Add, Sub, Mul, Div, Rem]);
     bins.push(BinKind::Call(Func::Mod));
@@ -426,6 +429,7 @@ pub fn c07(cx: &RunCtx) {
 pub fn c09(cx: &RunCtx) {
     cx.assume("Integer-only steps are checked for variant and value against i128 arithmetic; steps with a Float operand are checked for their numeric value only (the variant of such results is not specified)");
     let kinds = [Kind::Value, Kind::WellFormedErr, Kind::MustErrOk];
+    crate::fam::sign_runs::<Num>(cx, &kinds);
     use BinOp::*;
     let mut bins = ops(&[Add, Sub, Mul, Div, Rem, Pow]);
     bins.push(BinKind::Call(Func::Pow));
